@@ -96,6 +96,38 @@ func c11Pred(c *rt.Ctx, st *gen.Store, r *rt.Rand) *gen.Node {
 		return gen.Or(gen.And(gen.Bin("=", K(), lit()), g.Atom(0)), gen.Bin("=", K(), lit()))
 	case 6:
 		return gen.Bin(">=", K(), lit())
+	case 7:
+		// unions and intersections of half-open and closed key ranges, literal on either side
+		rng := func() *gen.Node {
+			a, b := g.KeyLits[r.Intn(len(g.KeyLits))], g.KeyLits[r.Intn(len(g.KeyLits))]
+			if a > b {
+				a, b = b, a
+			}
+			if a == b {
+				b = a + "z" // BETWEEN needs lower < upper (equal or reversed bounds fail at run time)
+			}
+			switch r.Intn(6) {
+			case 0:
+				return gen.Bin("<", K(), gen.Str(a))
+			case 1:
+				return gen.Bin("<=", K(), gen.Str(b))
+			case 2:
+				return gen.Bin(">", K(), gen.Str(b))
+			case 3:
+				return gen.Bin(">=", gen.Str(a), K())
+			case 4:
+				return gen.Between(K(), gen.Str(a), gen.Str(b))
+			}
+			return gen.And(gen.Bin(">=", K(), gen.Str(a)), gen.Bin("<=", K(), gen.Str(b)))
+		}
+		n := gen.Or(rng(), rng())
+		if r.Chance(1, 3) {
+			n = gen.Or(n, rng())
+		}
+		if r.Chance(1, 3) {
+			n = gen.And(n, g.Atom(1))
+		}
+		return n
 	}
 	return g.Bool(r.Range(0, 3))
 }
